@@ -378,14 +378,14 @@ Section HandleTotal.
   Lemma f_close_total : res_ok (snd (f_close f)).
   Proof. unfold f_close. brk0. Qed.
   Lemma f_read_dir_total n : res_ok (snd (f_read_dir s v f n)).
-  Proof. unfold f_read_dir. brk0. Qed.
+  Proof. unfold f_read_dir, dir_read. brk0. Qed.
   Lemma f_readdirnames_total n : res_ok (snd (f_readdirnames s v f n)).
-  Proof. unfold f_readdirnames. brk0. Qed.
+  Proof. unfold f_readdirnames, dir_read. brk0. Qed.
 End HandleTotal.
 
 (* methods that never look at the node need no hypothesis on the handle *)
 Lemma f_read_dir_total_any s v f n : res_ok (snd (f_read_dir s v f n)).
-Proof. unfold f_read_dir. brk0. Qed.
+Proof. unfold f_read_dir, dir_read. brk0. Qed.
 Lemma f_read_total_any s v f n : res_ok (snd (f_read s v f n)).
 Proof. unfold f_read. brk0. Qed.
 Lemma f_write_total_any s v f b : res_ok (snd (f_write s v f b)).
@@ -555,9 +555,9 @@ Proof. unfold f_seek, view_kept, set_at. brkv. Qed.
 Lemma f_close_view f : view_kept f (fst (f_close f)).
 Proof. unfold f_close, view_kept. brkv. Qed.
 Lemma f_read_dir_view s v f n : view_kept f (fst (f_read_dir s v f n)).
-Proof. unfold f_read_dir, view_kept. brkv. Qed.
+Proof. unfold f_read_dir, dir_read, view_kept. brkv. Qed.
 Lemma f_readdirnames_view s v f n : view_kept f (fst (f_readdirnames s v f n)).
-Proof. unfold f_readdirnames, view_kept. brkv. Qed.
+Proof. unfold f_readdirnames, dir_read, view_kept. brkv. Qed.
 Lemma f_write_view s v f b : view_kept f (snd (fst (f_write s v f b))).
 Proof. unfold f_write, view_kept, set_at. brkv. Qed.
 
